@@ -25,6 +25,9 @@
 (* fields of pixman_edge_t (error term, pre-reduced steps) equal the       *)
 (* Bresenham-style representation of Trap.tla; the first departure is      *)
 (* reported as a policy note and validation continues with (A).            *)
+(* Edges with end points beyond the domain of the walker record (deltas of  *)
+(* up to 33 bits) are judged on level (A) against the mathematical line     *)
+(* (Trap!LineX and the Trap cursor): Walk, LineInit, through TrapRowsQ Rast. *)
 (* Every event must be explained by the specification (Trap.tla with no    *)
 (* quirk).  If EnabledDeviations names quirks of the unrepaired tree       *)
 (* (known findings), an event that the specification does not explain may  *)
@@ -32,7 +35,7 @@
 (***************************************************************************)
 EXTENDS Trap, TraceIO, FiniteSets
 
-CONSTANT EnabledDeviations        \* subset of {"stale", "exact0", "backstep", "wrap"}
+CONSTANT EnabledDeviations        \* subset of {"stale", "exact0", "backstep", "wrap", "halve"}
 
 VARIABLES l,        \* next trace line
           noted     \* a departure of the walker's internal representation has been reported (level B)
@@ -43,9 +46,10 @@ DevName(f) == CASE f = "stale"    -> "C12-stale-error-term"
                 [] f = "exact0"   -> "C12-exact-start"
                 [] f = "backstep" -> "C12-whole-slope-backstep"
                 [] f = "wrap"     -> "C12-floor-y-wrap"
+                [] f = "halve"    -> "C12-halved-deltas"
 
 QOf(S) == [stale |-> "stale" \in S, exact0 |-> "exact0" \in S, backstep |-> "backstep" \in S, wrap |-> "wrap" \in S]
-Cands == (SUBSET EnabledDeviations) \ {{}}
+Cands == (SUBSET (EnabledDeviations \ {"halve"})) \ {{}}
 
 (* P(q): "the event is what the walker with quirks q produces".  The specification (no quirk) is *)
 (* tried first; otherwise a smallest set of enabled quirks that explains the event is reported. *)
@@ -83,15 +87,46 @@ Track(same) ==
     /\ noted' = (noted \/ ~same)
     /\ (~noted /\ ~same) => PrintT(<<"VF:policy", "edge-state", l>>)
 
+(* Known finding C12-halved-deltas.  An edge TALLER than the 16.16 range (yb - yt >= 2^31) has a *)
+(* dy that a pixman_edge_t cannot hold; pixman_edge_init follows it with both deltas halved,     *)
+(* which is the same line only when both are even.  For exactly this class - dy >= 2^31 and an   *)
+(* odd delta - and only with the deviation enabled, an abscissa within two units of the          *)
+(* mathematical line is accepted and reported.                                                   *)
+TallOdd(xt, yt, xb, yb) ==
+    LET dd == EdgeDeltas(xt, yt, xb, yb) IN
+    /\ ~WLess(dd[2], WDouble(WOf(1073741824)))
+    /\ (WOdd(dd[1]) \/ WOdd(dd[2]))
+WideJudge(xs, exact, xt, yt, xb, yb) ==
+    IF xs = exact THEN TRUE
+    ELSE /\ "halve" \in EnabledDeviations
+         /\ TallOdd(xt, yt, xb, yb)
+         /\ Len(xs) = Len(exact)
+         /\ (\A i \in DOMAIN exact : exact[i] - 2 <= xs[i] /\ xs[i] <= exact[i] + 2) = TRUE
+         /\ Deviation(DevName("halve"), l)
+
+(* the rows an init on ystart followed by steps visits *)
+RECURSIVE RowsFrom(_, _, _)
+RowsFrom(y, steps, k) == IF k > Len(steps) THEN <<y>> ELSE <<y>> \o RowsFrom(y + steps[k], steps, k + 1)
+
+(* An edge whose end points or rows lie outside the domain of the walker record (deltas of up to  *)
+(* 33 bits, which no pixman_edge_t holds either) is judged against the mathematical line: level    *)
+(* (A) only, the abscissa after the init and after every step is LineX on the row reached.        *)
 TWalk ==
     /\ l <= TraceLen /\ TraceLog[l].e = "Walk"
     /\ LET ev == TraceLog[l]
            a == ev.init
+           rows == RowsFrom(a[1], ev.steps, 1)
+           narrow == \A i \in DOMAIN rows : NarrowEdge(a[2], a[3], a[4], a[5], rows[i])
            Model(q) == LET e0 == EdgeInitQ(ev.n, a[1], a[2], a[3], a[4], a[5], q) IN
                        <<EdSeq(e0)>> \o WalkStates(e0, ev.steps, 1, q)
            PA(q) == Xs(ev.eds) = Xs(Model(q))                   \* (A) x after the init and after every step
-       IN  /\ Explained(PA)
-           /\ Track(ev.eds = Model(NoQuirks))                   \* (B)
+       IN  IF narrow
+           THEN /\ Explained(PA)
+                /\ Track(ev.eds = Model(NoQuirks))              \* (B)
+           ELSE /\ a[5] > a[3] /\ Len(ev.eds) = Len(rows)
+                /\ WideJudge(Xs(ev.eds), [i \in DOMAIN rows |-> LineX(a[2], a[3], a[4], a[5], rows[i])],
+                             a[2], a[3], a[4], a[5])
+                /\ UNCHANGED noted
     /\ l' = l + 1
 
 TLineInit ==
@@ -100,8 +135,16 @@ TLineInit ==
            a == ev.args
            Model(q) == EdSeq(LineEdgeInitQ(ev.n, a[1], <<a[2], a[3], a[4], a[5]>>, a[6], a[7], q))
            PA(q) == ev.ed[1] = Model(q)[1]
-       IN  /\ Explained(PA)
-           /\ Track(ev.ed = Model(NoQuirks))
+           xo == a[6] * Fixed1  yo == a[7] * Fixed1
+           p1first == a[3] <= a[5]
+           tx == (IF p1first THEN a[2] ELSE a[4]) + xo  ty == (IF p1first THEN a[3] ELSE a[5]) + yo
+           bx == (IF p1first THEN a[4] ELSE a[2]) + xo  by == (IF p1first THEN a[5] ELSE a[3]) + yo
+       IN  IF NarrowEdge(tx, ty, bx, by, a[1])
+           THEN /\ Explained(PA)
+                /\ Track(ev.ed = Model(NoQuirks))
+           ELSE /\ by > ty
+                /\ WideJudge(<<ev.ed[1]>>, <<LineX(tx, ty, bx, by, a[1])>>, tx, ty, bx, by)
+                /\ UNCHANGED noted
     /\ l' = l + 1
 
 TRast ==
